@@ -148,7 +148,9 @@ theorem fact_tok_token_ids :
 
 /-- the shape of `Scan` the model follows: the order of the outer cases, the case lists of the inner `switch ch`, the
 three letter-prefixed literals, the bases handed to `scanMantissa`, the comment prefixes, `isCarat`, `consumeNext`'s
-panic, and how `scanMySQLSpecificComment` builds the nested tokenizer (default dialect) and re-enters `Scan`. -/
+panic, and how `scanMySQLSpecificComment` builds the nested tokenizer (default dialect) and makes `Scan` start over:
+`Scan` is a LOOP around one round (`scanToken`) and the start-over marker `rescan` is no token type – the stack a
+`Scan` needs does not grow with the number of `/*! … */` comments (it used to: one recursive call per comment). -/
 theorem fact_tok_scan_shape :
     scanOuterCases = ["isLetter(ch)", "isDigit(ch)", "ch == ':'", "ch == ';' && tkn.multi", "default"] ∧
     scanCaseChars = [[256], [61, 44, 59, 40, 41, 43, 42, 37, 94, 126], [38], [124], [63], [46], [47], [35], [45], [60], [62], [33], [36], []] ∧
@@ -159,7 +161,8 @@ theorem fact_tok_scan_shape :
     blockCommentPrefixes = [("scanCommentType2", "/*"), ("scanMySQLSpecificComment", "/*!")] ∧
     caratShape = "ch == '.' || quoteHandler.IsIdentifierQuote(byte(ch)) || quoteHandler.IsStringLiteralQuote(byte(ch))" ∧
     consumeNextPanicsAtEof = true ∧
-    specialCommentTail = "_, sql := ExtractMysqlComment(buffer.String()); tkn.specialComment = NewStringTokenizer(sql); return tkn.Scan()" := by
+    specialCommentTail = "_, sql := ExtractMysqlComment(buffer.String()); tkn.specialComment = NewStringTokenizer(sql); return rescan, nil" ∧
+    scanLoopShape = "for { if typ, val := tkn.scanToken(); typ != rescan { return typ, val } }" ∧ rescanIsNegative = true := by
   decide
 
 /-- `ExtractMysqlComment`: `sql[3 : len(sql)-2]`, version = at most 5 digits (the 6th rune ends it), and the comment that
